@@ -2,9 +2,11 @@
 # tools/runall.sh [tier] : run every claimed check sequentially, one line per result in /verif/evidence/runall.<tier>.log
 tier=${1:-quick}
 cd /verif
-log=evidence/runall.$tier.log
+if [ "$tier" = thorough ]; then export GOSYM_EVIDENCE_DIR=/verif/evidence/thorough; mkdir -p $GOSYM_EVIDENCE_DIR; fi
+only=${RUNALL_ONLY:-}
+log=evidence/runall.$tier${RUNALL_TAG:-}.log
 : > $log
-for id in $(python3 -c "import json;print(' '.join(c['property_id'] for c in json.load(open('MANIFEST.json'))['checks']))"); do
+for id in ${only:-$(python3 -c "import json;print(' '.join(c['property_id'] for c in json.load(open('MANIFEST.json'))['checks']))")}; do
   s=$(date +%s)
   out=$(timeout ${RUNALL_TIMEOUT:-3600} ./check $id $tier 2>&1); rc=$?
   e=$(( $(date +%s) - s ))
